@@ -52,6 +52,7 @@ type channel struct {
 	gorumsClient    ordering.GorumsClient
 	gorumsStream    ordering.Gorums_NodeStreamClient
 	streamMut       sync.RWMutex
+	reconnectMut    sync.Mutex // serializes reconnect attempts of the sender and the receiver
 	streamBroken    atomicFlag
 	connEstablished atomicFlag
 	parentCtx       context.Context
@@ -305,11 +306,21 @@ func (c *channel) reconnect(maxRetries float64) {
 	var retries float64
 	for {
 		var err error
+		// Only one goroutine reconnects at a time, and it decides whether a reconnect is
+		// (still) needed before asking for the write lock: once the stream is up again the
+		// receiver holds the read lock for as long as it waits for the next message, so a
+		// late writer would block forever.
+		c.reconnectMut.Lock()
+		if !c.streamBroken.get() {
+			c.reconnectMut.Unlock()
+			return
+		}
 		c.streamMut.Lock()
 		// check if stream is already up
 		if !c.streamBroken.get() {
 			// do nothing because stream is up
 			c.streamMut.Unlock()
+			c.reconnectMut.Unlock()
 			return
 		}
 		c.streamCtx, c.cancelStream = context.WithCancel(c.parentCtx)
@@ -321,10 +332,12 @@ func (c *channel) reconnect(maxRetries float64) {
 			c.gorumsStream = stream
 			c.streamBroken.clear()
 			c.streamMut.Unlock()
+			c.reconnectMut.Unlock()
 			return
 		}
 		c.cancelStream()
 		c.streamMut.Unlock()
+		c.reconnectMut.Unlock()
 		c.setLastErr(err)
 		if retries >= maxRetries && maxRetries > 0 {
 			c.streamBroken.set()
